@@ -39,7 +39,10 @@ RULE = (
     "unsampled run at a later time point); class edge = 1-3 inputs of any kind (parameters, initial sizes, transfers, interactions, spend, capacity, outcomes) get a best "
     "estimate of exactly 0 (as constant / in a year column), exactly 1 or a sigma of twice the value, with sigma > 0, and the sampled value of EVERY input with sigma > 0 must "
     "differ from the entered value and between direct samples (labels uq:<kind of input>, uv:<value class>); every entry point is called twice in a row (second call not reseeded): "
-    "run_sampled_sims serial and parallel, Ensemble.run_sims serial and parallel, CascadeEnsemble.run_sims serial, sample() directly; samples 2..32; "
+    "run_sampled_sims serial and parallel, Ensemble.run_sims serial and parallel, CascadeEnsemble.run_sims serial, sample() directly; edge also covers bounded inputs with a sigma that is "
+    "large relative to the distance to the bound (saturation 0.95+-0.1, 0.05+-0.1, 1.0+-0.2; parameters 5% inside a framework limit with sigma 10%); ~25% of the sources have a "
+    "stochastic framework (one parameter function k*(1+0.1*randn())), for which the fingerprint is that of the sampled inputs retained by the Result (data parameters untouched by "
+    "functions/programs + program inputs); 8 direct samples per case for the per-quantity oracle; samples 2..32; "
     "per case 3 direct sample() probes, 2 serial calls of Project.run_sampled_sims and 1 parallel call with 1,2,3,4,8,16 workers (or Ensemble.run_sims(parallel=True)); drawn "
     "seeds for the global numpy generator before every call); oracle = pairwise distinct fingerprints (result arrays + program inputs kept by the run) within one call when a "
     "perturbed input is visible one-to-one in the fingerprint, bitwise equality with the unsampled run when every sigma is 0/None, sources canon-unchanged, sample() never "
@@ -52,6 +55,7 @@ ASSUMPTIONS = [
     "initial stocks count as one-to-one visible: the stored initial size of an ordinary compartment / initial value of a characteristic is value + delta for every accepted draw; the number of rejected draws is measured harness-side by replaying a serial sample-run-resample loop from the case's seed (the parallel workers' own rejections are not observable), at most 50 attempts per sample as in atomica",
     "a saved initialization is part of the source parameter set: the unsampled reference run uses it, a sample must keep it (zero uncertainty => identical run) and the canonical form compared for 'source unchanged' includes it; with a saved initialization, uncertainty on databook stocks cannot reach the run, which the probes notice (distinctness then rests on other inputs or is not required)",
     "edge class: runs on edge-valued perturbed inputs (negative rates etc.) that raise inside the model are discarded, not reported; zero/negative durations, unit costs and saturations are not generated; the per-quantity oracle does not depend on the model run",
+    "stochastic frameworks: outputs differ from run to run, so every oracle (distinct samples, zero uncertainty => equal, reproducible from the seed) is applied to the input fingerprint; initial stocks are not part of it, so uncertainty that sits only on initial stocks is labelled no-one-to-one-path there",
     "process start method is fork (Linux default in Python 3.12; sciris/multiprocess likewise): workers inherit the check process's sys.path, so VERIF_ATOMICA_SRC applies to workers as well",
     "serial reproducibility from np.random.seed is taken as promised because docs/examples/Uncertainty.ipynb seeds the global generator to obtain specific samples; parallel reproducibility and serial==parallel are not required",
     "a call that exhausts its 50 resampling attempts because of bad initial conditions is outside the domain (discarded, counted); generated specs atomica cannot build/run unsampled are discarded (C18)",
